@@ -169,7 +169,9 @@ Inductive query := QGet (k : key) | QK2K (k : key) | QV2K (v : val) | QPure | QB
 (* OSetBad kt: "d[kt] = value" with an unhashable value (list, dict, set, object with __eq__ and no
    __hash__): "value in self._inv_dict" raises TypeError. *)
 Inductive op := OSet (kt : tup) (v : val) | ODel (k : key) | ODelAttr (k : key)
-              | OSetBad (kt : tup) | OObs (q : query).
+              | OSetBad (kt : tup) | OObs (q : query)
+              (* "sd.default = value" and "del sd.default" done by the user (StrategyDict only) *)
+              | OSetDefault (v : val) | ODelDefault.
 
 Definition is_err {T} (r : res T) : bool := match r with Ok _ => false | _ => true end.
 (* does the observation raise?  None of them writes anything. *)
@@ -191,6 +193,8 @@ Definition mstep (d : mkd) (o : op) : mkd * bool :=   (* bool: the operation rai
      the value; it raises before anything is written *)
   | OSetBad _ => (d, true)
   | OObs q => (d, qraises d q)
+  | OSetDefault _ => (d, false)      (* a plain attribute of a MultiKeyDict; not part of the views *)
+  | ODelDefault => (d, true)         (* no such attribute (OSetDefault is never generated for a MultiKeyDict) *)
   end.
 Definition sstep (s : sd) (o : op) : sd * bool :=
   match o with
@@ -201,6 +205,13 @@ Definition sstep (s : sd) (o : op) : sd * bool :=
      __setitem__ raises TypeError: the names (and possibly the default) are gone *)
   | OSetBad kt => (sd_try_del_all s kt, true)
   | OObs q => (s, qraises (sd_d s) q)
+  (* no __setattr__: the instance attribute is simply written *)
+  | OSetDefault v => (SD (sd_d s) (attrs s) (Some v), false)
+  (* __delattr__("default"): self["default"] raises KeyError ("default" is never a strategy name here), then
+     object.__delattr__ removes the instance attribute or raises AttributeError *)
+  | ODelDefault => match default s with
+                   | Some _ => (SD (sd_d s) (attrs s) None, false)
+                   | None => (s, true) end
   end.
 
 (* what a user can observe after a step, over key universe ks and value universe vs *)
@@ -235,4 +246,51 @@ Fixpoint srun (ks : list key) (vs : list val) (s : sd) (ops : list op) : list vi
   match ops with
   | [] => []
   | o :: r => let '(s', e) := sstep s o in sview ks vs s' e :: srun ks vs s' r
+  end.
+
+(* ---- several dict objects, some built from others (round 3) *)
+(* MultiKeyDict(other): "dict(other)" reads other through keys() and other[key tuple] (its __iter__ is
+   overridden, so CPython takes the generic mapping path), i.e. one (key tuple, value) item per stored
+   value in storage order; then "self[key] = value" for each item on the fresh object.  The same happens
+   for MultiKeyDict(dict(other)) and MultiKeyDict(other.copy()). *)
+Definition mkd_cast (d : mkd) : mkd :=
+  fold_left (fun acc tv => fst (mstep acc (OSet (fst tv) (snd tv)))) (store d) empty.
+
+Inductive obj := OM (d : mkd) | OS (s : sd).
+Definition odict (x : obj) : mkd := match x with OM d => d | OS s => sd_d s end.
+Definition ostep (x : obj) (o : op) : obj * bool :=
+  match x with
+  | OM d => let '(d', e) := mstep d o in (OM d', e)
+  | OS s => let '(s', e) := sstep s o in (OS s', e)
+  end.
+Definition oview (ks : list key) (vs : list val) (x : obj) (raised : bool) : view :=
+  match x with OM d => mview ks vs d raised | OS s => sview ks vs s raised end.
+
+(* MOn i o: operation o on object number i; MCast i: a new MultiKeyDict built from object i is appended;
+   MNew st: a fresh empty MultiKeyDict / StrategyDict is appended *)
+Inductive mop := MOn (i : nat) (o : op) | MCast (i : nat) | MNew (strategy : bool).
+
+Fixpoint set_nth {T} (i : nat) (x : T) (l : list T) : list T :=
+  match l, i with
+  | [], _ => []
+  | _ :: r, 0 => x :: r
+  | y :: r, S j => y :: set_nth j x r
+  end.
+
+Definition hstep (h : list obj) (m : mop) : list obj * bool :=
+  match m with
+  | MOn i o => match nth_error h i with
+               | Some x => let '(x', e) := ostep x o in (set_nth i x' h, e)
+               | None => (h, true) end
+  | MCast i => match nth_error h i with
+               | Some x => (h ++ [OM (mkd_cast (odict x))], false)
+               | None => (h, true) end
+  | MNew st => (h ++ [if st then OS sd_empty else OM empty], false)
+  end.
+
+(* after every step: the flag of the step and the view of EVERY object *)
+Fixpoint hrun (ks : list key) (vs : list val) (h : list obj) (ms : list mop) : list (bool * list view) :=
+  match ms with
+  | [] => []
+  | m :: r => let '(h', e) := hstep h m in (e, map (fun x => oview ks vs x false) h') :: hrun ks vs h' r
   end.
